@@ -63,7 +63,9 @@ def assist(project, source, position, filename=None, debug=False):
     else:
         name = get_marked_name(source.tree)
         if name:
-            names = name.flow.names_at(position)
+            # with the module variables functions create through a global
+            # declaration, wherever the cursor is
+            names = set(name.flow.names_at(position)).union(scope._global_names)
 
     return prefix, sorted(names)
 
